@@ -8,24 +8,97 @@
     no spacing of header times or heights, makes this computation panic, wrap
     around or wedge Head()/Start.
 
-    The model (Model/Tail.v) is the CURRENT code, for which the statement is false
-    in seven regions (known findings F8, F9a..F9f). Each clause is therefore proved
-    under the exact precondition that makes it true ([_partial], or an [_iff]
-    that states the boundary), and the excluded region is witnessed by a
-    [_refuted] theorem. Statements only; proofs are in Proofs/TailP.v.
+    The model (Model/Tail.v) is the CURRENT code, i.e. after the repairs 4eee3bd
+    (no division by an unset block time), 88b6cbe (Validate rejects negative
+    durations), bf876d4 (estimate clamped between old tail and head), efa8b16 and
+    85f942c (downward walk, also from one above the store's head). For this code
+    "never panics", "never wraps" and "keeps the window" hold at FULL strength;
+    "still one gap-free chain" and "never wedges" hold except in two regions that
+    stay open findings: F9a (new tail above the store's head + 1: orphan, refused
+    DeleteRange, Start fails, permanently once the local head is expired) and F9f
+    (tail moved down from a single-header store, last chunk refused). Both regions
+    are characterised exactly and witnessed by [_refuted] theorems. Statements
+    only; proofs are in Proofs/TailP.v.
 
     Notation: [start_run p times now st] is Start() of a freshly configured
     Syncer with parameters p, on a store st, against a network whose chain has the
     header times [times] (heights 1..n), at clock [now]; it returns the
     observation (outcome, heights requested from the network, store afterwards)
     and the reason. [wf st n]: st is one gap-free chain inside 1..n (or empty)
-    with nothing retrievable outside of it. *)
+    with nothing retrievable outside of it. [tmf times h]: time of header h. *)
 From GH Require Import Base.Prelude Model.Tail Proofs.TailP Oracle.C16.
 
-(** ** 1. The store stays one gap-free chain (all parameters, all chains, all clocks) *)
+(** ** 1. Never panics — FULL: every parameter set (accepted by Validate or not),
+    every chain, every clock, every store *)
+Theorem C16_no_panic : forall p times now st,
+  o_out (fst (start_run p times now st)) <> OPanic.
+Proof. exact start_run_no_panic. Qed.
 
-(** FULL for every run except the one reason WDelete; that region is exactly
-    characterised: DeleteRange refused and left one orphan above head + 1. *)
+Theorem C16_estimate_no_panic : forall tp b h, estimate_tail tp b h <> TPanic.
+Proof. exact estimate_no_panic. Qed.
+
+Theorem C16_find_tail_no_panic : forall w b oldH oldT headH headT storeH time_at,
+  find_tail w b oldH oldT headH headT storeH time_at <> TPanic.
+Proof. exact find_tail_no_panic. Qed.
+
+(** ** 2. Never wraps around — FULL: any parameters, any spacing of header times *)
+
+(** the first estimate (empty store) is a height of the chain *)
+Theorem C16_estimate_in_chain : forall tp b h, 1 <= h ->
+  exists x, estimate_tail tp b h = TVal x /\ 1 <= x <= h.
+Proof. exact estimate_in_chain. Qed.
+
+(** findTailHeight returns a height between the old tail and the head, whatever
+    the window, the block time and the header times are (the store answers the
+    lookups between its tail and its head; the scans cannot run out of fuel) *)
+Theorem C16_no_wrap : forall w b oldH oldT headH headT storeH time_at,
+  headH < two64 -> storeH <= headH ->
+  (forall h, oldH <= h <= storeH -> exists t, time_at h = Some t) ->
+  exists x, find_tail w b oldH oldT headH headT storeH time_at = TVal x /\
+            oldH <= x /\ x <= N.max oldH headH.
+Proof. exact find_tail_in_range. Qed.
+
+(** at the level of Start, window mode: every height asked from the network is a
+    height of the chain, and Start fails only because the network's head is itself
+    expired or because the new tail lies above the store's head + 1 (WDelete, F9a) *)
+Theorem C16_no_wrap_start : forall p times now st,
+  let n := net_head times in
+  wf st n -> n + 2 < two64 -> 1 <= n ->
+  p_hash p = HNone -> p_from p = 0 ->
+  let '(o, w) := start_run p times now st in
+  (w = WDone \/ w = WNoCall \/ w = WInvalid \/ w = WInitExpired \/ w = WDelete) /\
+  Forall (fun h => 1 <= h <= n) (o_req o) /\
+  (o_out o = OOk <-> (w = WDone \/ w = WNoCall)).
+Proof. exact start_window_any. Qed.
+
+(** ** 3. Keeps the window — FULL, under less than the property's hypothesis:
+    header times only have to be non-decreasing (spacing by at most blockTime
+    implies it); any block time, any trusting period, "far" and "close" case alike *)
+
+(** function level: a new tail at most one above the store's head (anything higher
+    cannot be moved to) has only headers older than the window below it *)
+Theorem C16_keeps_window_find_tail : forall (t : N -> Z) w b oldH oldT headH headT storeH time_at x,
+  oldH <= storeH ->
+  (forall h, oldH <= h < storeH -> (0 <= t (h + 1)%N - t h)%Z) ->
+  (forall h, oldH <= h <= storeH -> time_at h = Some (t h)) ->
+  find_tail w b oldH oldT headH headT storeH time_at = TVal x -> x <= storeH + 1 ->
+  forall h, oldH <= h < x -> (t h < headT + wrapi64 (- w))%Z.
+Proof. exact find_tail_keeps_window. Qed.
+
+(** level of Start, window mode: every header Start removes from the store is
+    older than the pruning window counted from the network head *)
+Theorem C16_keeps_window : forall p times now st,
+  let n := net_head times in
+  let t := tmf times in
+  wf st n -> n + 2 < two64 -> 1 <= n ->
+  p_hash p = HNone -> p_from p = 0 -> sane (p_window p) ->
+  (forall h, s_tail st <= h < n -> (0 <= t (h + 1)%N - t h)%Z) ->
+  forall h, st_has st h = true -> st_has (o_store (fst (start_run p times now st))) h = false ->
+  (t h < t n - p_window p)%Z.
+Proof. exact start_keeps_window. Qed.
+
+(** ** 4. Still one gap-free chain — FULL for every run except the reason WDelete,
+    which is characterised exactly (all parameters, chains, clocks) *)
 Theorem C16_tail_within_chain : forall p times now st,
   let n := net_head times in
   wf st n -> n + 2 < two64 ->
@@ -35,95 +108,11 @@ Theorem C16_tail_within_chain : forall p times now st,
      exists t h x, o_store o = Store t h [x] /\ 1 <= t <= h /\ h + 1 < x <= n).
 Proof. exact start_run_store. Qed.
 
-(** ** 2. Never panics *)
-
-(** the exact boundary: Start panics iff the tail is recomputed in window mode
-    with blockTime = 0 and a division is reached *)
-Theorem C16_panic_iff : forall p times now st,
-  wf st (net_head times) -> net_head times + 2 < two64 ->
-  (o_out (fst (start_run p times now st)) = OPanic <->
-   exists init st1, start_call p times now st = inr (init, st1) /\ panic_cond p times st1).
-Proof. exact start_run_panic_iff. Qed.
-
-Theorem C16_estimate_panics_iff : forall tp b h, estimate_tail tp b h = TPanic <-> b = 0%Z.
-Proof. exact estimate_panics_iff. Qed.
-
-Theorem C16_find_tail_panics_iff : forall w b oldH oldT headH headT storeH time_at,
-  find_tail w b oldH oldT headH headT storeH time_at = TPanic <->
-  b = 0%Z /\ (0 < sat64 (headT + wrapi64 (- w) - oldT))%Z.
-Proof. exact find_tail_panics_iff. Qed.
-
-(** ** 3. Never wraps around *)
-
-(** the first estimate (empty store) is always a height of the chain *)
-Theorem C16_estimate_in_chain : forall tp b h, b <> 0%Z -> 1 <= h ->
-  exists x, estimate_tail tp b h = TVal x /\ 1 <= x <= h.
-Proof. exact estimate_in_chain. Qed.
-
-(** PARTIAL (spacing of header times <= blockTime, as the property text assumes
-    for the window clause; magnitudes below 2^61 ns so that time.Sub does not
-    saturate): the new tail lies between the old tail and the head, and unless the
-    "far" case is taken every header below it is older than the window.
-    The FULL statement (no assumption on the spacing) is refuted below. *)
-Theorem C16_no_wrap_keeps_window_partial : forall (t : N -> Z) w b oldH headH storeH time_at,
-  (0 < b)%Z -> (0 < w)%Z -> sane w -> sane (t oldH) -> sane (t headH) ->
-  oldH <= storeH <= headH -> headH < two64 ->
-  (forall h, oldH <= h < headH -> (0 <= t (h + 1)%N - t h <= b)%Z) ->
-  (forall h, oldH < h < storeH -> time_at h = Some (t h)) ->
-  exists x, find_tail w b oldH (t oldH) headH (t headH) storeH time_at = TVal x /\
-    oldH <= x <= headH /\
-    ((t headH - w - t oldH < w)%Z -> forall h, oldH <= h < x -> (t h < t headH - w)%Z).
-Proof. exact find_tail_spaced. Qed.
-
-(** the exact boundary of the "far" case for ANY spacing: the result is a height
-    of the chain iff window/blockTime < head height *)
-Theorem C16_far_in_chain_iff : forall w b oldH oldT headH headT storeH time_at,
-  (0 < b)%Z -> (0 < w)%Z -> sane w -> sane oldT -> sane headT ->
-  storeH <= headH -> headH < two64 ->
-  (w <= headT - w - oldT)%Z ->
-  (forall h, oldH < h < storeH -> exists t0, time_at h = Some t0) ->
-  exists x, find_tail w b oldH oldT headH headT storeH time_at = TVal x /\
-    (1 <= x <= headH <-> (w / b < Z.of_N headH)%Z).
-Proof. exact find_tail_far_iff. Qed.
-
-(** the "far" case keeps the window when blockTime is a LOWER bound of the spacing *)
-Theorem C16_keeps_window_far_partial : forall (t : N -> Z) w b oldH headH storeH time_at,
-  (0 < b)%Z -> (0 < w)%Z -> sane w -> sane (t oldH) -> sane (t headH) ->
-  oldH <= storeH <= headH -> headH < two64 ->
-  (w <= t headH - w - t oldH)%Z ->
-  (w / b < Z.of_N headH)%Z ->
-  (forall h, oldH <= h < headH -> (0 <= t (h + 1)%N - t h)%Z) ->
-  (forall h, oldH <= h < headH -> headH - Z.to_N (w / b) <= h + 1 -> (b <= t (h + 1)%N - t h)%Z) ->
-  (forall h, oldH < h < storeH -> time_at h = Some (t h)) ->
-  exists x, find_tail w b oldH (t oldH) headH (t headH) storeH time_at = TVal x /\
-    forall h, oldH <= h < x -> (t h < t headH - w)%Z.
-Proof. exact find_tail_far_min_spacing. Qed.
-
-(** ** 4. The clauses at the level of Start(), under the property's own hypothesis *)
-
-(** window clause, PARTIAL ("far" case excluded; it is refuted below): in window
-    mode, header times between the old tail and the network head spaced by at
-    most blockTime: every header Start removes from the store is older than the
-    pruning window counted from the network head *)
-Theorem C16_keeps_window_partial : forall p times now st,
-  let n := net_head times in
-  let t := tmf times in
-  wf st n -> n + 2 < two64 ->
-  p_hash p = HNone -> p_from p = 0 ->
-  (0 < p_block p)%Z -> (0 < p_window p)%Z -> sane (p_window p) ->
-  sane (t (s_tail st)) -> sane (t n) ->
-  (forall h, s_tail st <= h < n -> (0 <= t (h + 1)%N - t h <= p_block p)%Z) ->
-  (t n - p_window p - t (s_tail st) < p_window p)%Z ->
-  forall h, st_has st h = true -> st_has (o_store (fst (start_run p times now st))) h = false ->
-  (t h < t n - p_window p)%Z.
-Proof. exact start_keeps_window. Qed.
-
-(** no-wrap and no-wedge, PARTIAL (same hypothesis): every height asked from the
-    network is a height of the chain; Start succeeds unless the only head the
-    network offers is expired or the new tail lies above the store's head + 1
-    (WDelete, finding F9a); and that cannot happen when the "far" case is not
-    taken and the store's head is younger than the pruning window *)
-Theorem C16_no_wrap_no_wedge_partial : forall p times now st,
+(** ** 5. Never wedges — PARTIAL: under the property's hypothesis (spacing <=
+    blockTime), when the "far" case is not taken and the store's head is younger
+    than the pruning window, the new tail is in the store and Start cannot fail
+    with WDelete. The full statement is refuted below (F9a). *)
+Theorem C16_no_wedge_partial : forall p times now st,
   let n := net_head times in
   let t := tmf times in
   wf st n -> n + 2 < two64 -> 1 <= n ->
@@ -131,17 +120,14 @@ Theorem C16_no_wrap_no_wedge_partial : forall p times now st,
   (0 < p_block p)%Z -> (0 < p_window p)%Z -> sane (p_window p) ->
   sane (t (s_tail st)) -> sane (t n) ->
   (forall h, s_tail st <= h < n -> (0 <= t (h + 1)%N - t h <= p_block p)%Z) ->
-  let '(o, w) := start_run p times now st in
-  (w = WDone \/ w = WNoCall \/ w = WInvalid \/ w = WInitExpired \/ w = WDelete) /\
-  Forall (fun h => 1 <= h <= n) (o_req o) /\
-  (o_out o = OOk <-> (w = WDone \/ w = WNoCall)) /\
-  (s_tail st <> 0 -> (t n - p_window p - t (s_tail st) < p_window p)%Z ->
-     (t n - p_window p < t (s_head st))%Z -> w <> WDelete).
-Proof. exact start_window_spaced. Qed.
+  s_tail st <> 0 -> (t n - p_window p - t (s_tail st) < p_window p)%Z ->
+  (t n - p_window p < t (s_head st))%Z ->
+  snd (start_run p times now st) <> WDelete.
+Proof. exact start_no_wedge_partial. Qed.
 
-(** non-vacuity: the hypotheses of the two theorems above are met by a run that
-    really moves the tail (close case; 61 headers 10ns apart, store [45..60]) *)
-Example C16_partial_theorems_nonvacuous :
+(** non-vacuity: runs that meet the hypotheses above and really move the tail:
+    the close case, and the far case with fast blocks (tail found by the downward walk) *)
+Example C16_positive_theorems_nonvacuous :
   params_valid wok_params = true /\
   spaced_b wok_times 10 45 61 = true /\
   (tmf wok_times 61 - 100 - tmf wok_times 45 < 100)%Z /\
@@ -149,49 +135,32 @@ Example C16_partial_theorems_nonvacuous :
   start_run wok_params wok_times 611 (Store 45 60 []) = (Obs OOk [] (Store 51 61 []), WDone).
 Proof. exact wok_run. Qed.
 
-(** ** 4b. The whole property, outside the seven regions of the known findings
+Example C16_far_case_nonvacuous :
+  params_valid w9c_params = true /\
+  spaced_b w9c_times 10 1 61 = true /\
+  start_run w9c_params w9c_times 306 (Store 1 50 []) = (Obs OOk [] (Store 41 61 []), WDone) /\
+  (tmf w9c_times 40 < tmf w9c_times 61 - 100)%Z /\ (tmf w9c_times 41 >= tmf w9c_times 61 - 100)%Z.
+Proof. exact wok_far_run. Qed.
+
+(** ** 6. The whole property, outside the two regions of the open findings
 
     [ok16] (Oracle/C16.v) is the decidable re-statement of EVERY clause of C16 on an
     observation: parameters rejected iff invalid, no panic, no failure of Start that
     the environment does not explain, in window mode only heights of the chain are
     requested, the store afterwards is one gap-free chain with 1 <= Tail <= Head and
     nothing outside of it, and under the spacing hypothesis no removed header is
-    younger than the pruning window. [region16] numbers the regions of the open
-    findings F8 (1), F9a (2), F9b (3), F9c (4), F9d (5), F9e (6), F9f (7) by the
-    reason the model gives for the outcome. For ALL parameters, chains, clocks and
-    every store that is one gap-free chain: a run outside those regions satisfies
-    the whole property. *)
+    younger than the pruning window. [region16] is 2 for WDelete (F9a), 7 for
+    WChunk (F9f), 0 otherwise. For ALL parameters, chains, clocks and every store
+    that is one gap-free chain: a run outside those two regions satisfies the
+    whole property. *)
 Theorem C16_full_outside_known_regions : forall p times now st,
-  wf st (net_head times) -> net_head times + 2 < two64 ->
+  wf st (net_head times) -> net_head times + 2 < two64 -> 1 <= net_head times -> sane (p_window p) ->
   let c := Case16 p times now st (start_step p times now st) in
   region16 c = 0 -> ok16 c = true.
 Proof. exact model16_ok. Qed.
 
-(** ** 5. The full statement is false of the current code: witnesses
+(** ** 7. What is still false of the current code: witnesses
     (each is replayed on the real code by harness/c16 on every run) *)
-
-(** F8 "never panics": default parameters (blockTime unset) on an empty store *)
-Theorem C16_no_panic_refuted : exists p times now st,
-  params_valid p = true /\ wf st (net_head times) /\
-  o_out (start_step p times now st) = OPanic.
-Proof. exact no_panic_refuted. Qed.
-
-(** F9b "never wraps": a halted chain makes Start ask the network for a height near 2^64 *)
-Theorem C16_no_wrap_refuted : exists p times now st,
-  params_valid p = true /\ wf st (net_head times) /\ (0 < p_block p)%Z /\ (0 < p_window p)%Z /\
-  exists x, In x (o_req (start_step p times now st)) /\ net_head times < x /\
-  o_out (start_step p times now st) = OErr.
-Proof. exact no_wrap_refuted. Qed.
-
-(** F9c "keeps the window": blocks faster than blockTime (spacing <= blockTime holds) in the "far" case *)
-Theorem C16_keeps_window_refuted : exists p times now st h,
-  params_valid p = true /\ wf st (net_head times) /\ p_hash p = HNone /\ p_from p = 0 /\
-  (0 < p_block p)%Z /\ (0 < p_window p)%Z /\
-  (forall k, 1 <= k < net_head times -> (0 <= tmf times (k + 1)%N - tmf times k <= p_block p)%Z) /\
-  o_out (start_step p times now st) = OOk /\
-  st_has st h = true /\ st_has (o_store (start_step p times now st)) h = false /\
-  (tmf times h > tmf times (net_head times) - p_window p)%Z.
-Proof. exact keeps_window_refuted. Qed.
 
 (** F9a "still one gap-free chain": the new tail above the store's head + 1 is
     force-appended, DeleteRange refuses, Start fails and an orphan stays behind *)
@@ -209,40 +178,23 @@ Theorem C16_never_wedges_refuted : exists p times now st,
                      (Nat.iter k (fun s => o_store (start_step p times now s)) st)) = OErr.
 Proof. exact never_wedges_refuted. Qed.
 
-(** F9d: header times further apart than blockTime in the "close" case: a height above the network head is requested *)
-Theorem C16_close_case_refuted : exists p times now st x,
-  params_valid p = true /\ wf st (net_head times) /\ (0 < p_block p)%Z /\ (0 < p_window p)%Z /\
-  start_step p times now st = Obs OErr [x] (Store 1 3 []) /\ net_head times < x.
-Proof. exact close_case_refuted. Qed.
-
-(** F9e: Validate accepts a negative PruningWindow, and Start then fails *)
-Theorem C16_validate_negative_refuted : exists p times now st x,
-  params_valid p = true /\ (p_window p < 0)%Z /\ wf st (net_head times) /\
-  start_step p times now st = Obs OErr [x] (Store 1 21 []) /\ net_head times < x.
-Proof. exact validate_negative_refuted. Qed.
-
 (** F9f: moving the tail down from a single-header store fails on the last chunk *)
 Theorem C16_move_down_refuted : exists p times now st,
   params_valid p = true /\ wf st (net_head times) /\
   start_run p times now st = (Obs OErr [] (Store 61 62 []), WChunk).
 Proof. exact move_down_refuted. Qed.
 
-Print Assumptions C16_tail_within_chain.
-Print Assumptions C16_panic_iff.
-Print Assumptions C16_estimate_panics_iff.
-Print Assumptions C16_find_tail_panics_iff.
+Print Assumptions C16_no_panic.
+Print Assumptions C16_estimate_no_panic.
+Print Assumptions C16_find_tail_no_panic.
 Print Assumptions C16_estimate_in_chain.
-Print Assumptions C16_no_wrap_keeps_window_partial.
-Print Assumptions C16_far_in_chain_iff.
-Print Assumptions C16_keeps_window_far_partial.
-Print Assumptions C16_keeps_window_partial.
-Print Assumptions C16_no_wrap_no_wedge_partial.
+Print Assumptions C16_no_wrap.
+Print Assumptions C16_no_wrap_start.
+Print Assumptions C16_keeps_window_find_tail.
+Print Assumptions C16_keeps_window.
+Print Assumptions C16_tail_within_chain.
+Print Assumptions C16_no_wedge_partial.
 Print Assumptions C16_full_outside_known_regions.
-Print Assumptions C16_no_panic_refuted.
-Print Assumptions C16_no_wrap_refuted.
-Print Assumptions C16_keeps_window_refuted.
 Print Assumptions C16_tail_within_chain_refuted.
 Print Assumptions C16_never_wedges_refuted.
-Print Assumptions C16_close_case_refuted.
-Print Assumptions C16_validate_negative_refuted.
 Print Assumptions C16_move_down_refuted.
